@@ -64,7 +64,7 @@ StartRun(s, e) ==
 
 \* C03(c): everything that happens before the first stop answer is identical to the keep-going run of the same input
 NormEv(e) == IF e.e = "err" THEN [e EXCEPT !.ans = "x", !.mj = "", !.mq = "", !.ma = <<>>]      \* the renderings are logged for reference runs only
-             ELSE IF e.e = "mrg" THEN [e EXCEPT !.ans = "x"] ELSE e
+             ELSE IF e.e = "mrg" THEN [e EXCEPT !.ans = "x", !.mj = "", !.mq = ""] ELSE e
 PrefixStep(s, e) ==
     IF s.cur.isref THEN [s EXCEPT !.refev = Append(@, NormEv(e))]
     ELSE IF ~s.cur.cmp \/ s.diverged THEN s
@@ -185,6 +185,7 @@ OnMrg(s, e) ==
             LET c == CHOOSE x \in Candidates(s.stack, s.cur) : x.e = "mrg" /\ x.ans = e.ans
                 isrep == F.ph # "fnm2"                                   \* this merge turns the function's error into a report
                 s2 == IF isrep THEN [s1 EXCEPT !.made = @ \cup {F.fnp.id}, !.reps = Append(@, FnDesc(F.fnp.f, e.loc)), !.nrep = @ + 1,
+                                               !.ref1 = IF s.cur.isref /\ ~@.has THEN [has |-> TRUE, mj |-> e.mj, mq |-> e.mq] ELSE @,
                                                !.idp = Append(@, [id |-> F.fnp.id, ps |-> CASE F.fnp.k = "missing" -> {"C08"} [] F.fnp.k = "deny" -> {"C09"} [] OTHER -> {"C11"}])]
                       ELSE s1
                 locprops == CASE F.fnp.k = "missing" -> {"C08", "C04"} [] F.fnp.k = "deny" -> {"C09", "C04"} [] OTHER -> {"C11", "C04"}
@@ -314,7 +315,9 @@ OnDone(s, e) ==
 Degraded(s, e) ==
     CASE e.e = "err" -> [s EXCEPT !.reps = Append(@, ObsDesc(e)),
                                   !.ref1 = IF s.cur.isref /\ ~@.has THEN [has |-> TRUE, mj |-> e.mj, mq |-> e.mq] ELSE @]
-      [] e.e = "mrg" /\ Len(e.src) > 3 /\ SubSeq(e.src, 1, 3) = "fn:" -> [s EXCEPT !.reps = Append(@, FnDesc(SubSeq(e.src, 4, Len(e.src)), e.loc))]
+      [] e.e = "mrg" /\ Len(e.src) > 3 /\ SubSeq(e.src, 1, 3) = "fn:" ->
+            [s EXCEPT !.reps = Append(@, FnDesc(SubSeq(e.src, 4, Len(e.src)), e.loc)),
+                      !.ref1 = IF s.cur.isref /\ ~@.has THEN [has |-> TRUE, mj |-> e.mj, mq |-> e.mq] ELSE @]
       [] OTHER -> s
 
 \* comparisons between the runs of one input (implementation against itself): member order (C15), built-in error types (C03d / C14)
